@@ -10,7 +10,7 @@ abbrev pos (l : Int) (cs : List Int) : Rat := ((indexOf l cs : Nat) : Int)
 theorem mask_and (pre : Option Affine) (a b : State) (e : Elem) :
     mask pre (.and a b) e = (mask pre a e && mask pre b e) := rfl
 
-theorem mask_catRange (pre : Option Affine) (cs : List Int) (hs : strictSorted cs = true) (lo hi : Rat)
+theorem mask_catRange (pre : Option Affine) (cs : List Int) (hs : noDup cs = true) (lo hi : Rat)
     (att : Ax) (e : Elem) (l : Int) (he : e.get att = .lab l) (hl : l ∈ cs) :
     mask pre (.catRoi (fromRange cs lo hi) att) e =
       (decide (lo ≤ pos l cs) && decide (pos l cs < hi)) := by
@@ -26,7 +26,7 @@ theorem mask_numRange (pre : Option Affine) (lo hi : Rat) (att : Ax) (e : Elem) 
 
 /-! ### the tables of the two categorical loops -/
 
-theorem selMulti_get (pg : List Pt) (cats : List Int) (hs : strictSorted cats = true) (l : Int)
+theorem selMulti_get (pg : List Pt) (cats : List Int) (hs : noDup cats = true) (l : Int)
     (hl : l ∈ cats) :
     dictGet (selMulti pg cats) l =
       (if (polygonLineIntersections pg (pos l cats)).isEmpty then none
@@ -44,7 +44,7 @@ theorem selMulti_get (pg : List Pt) (cats : List Int) (hs : strictSorted cats = 
   split <;> simp_all
 
 theorem mask_catMulti (pre : Option Affine) (pg : List Pt) (cats : List Int)
-    (hs : strictSorted cats = true) (ca na : Ax) (e : Elem) (l : Int) (v : Rat)
+    (hs : noDup cats = true) (ca na : Ax) (e : Elem) (l : Int) (v : Rat)
     (hc : e.get ca = .lab l) (hn : e.get na = .num (some v)) (hl : l ∈ cats) :
     mask pre (.catMulti (selMulti pg cats) ca na) e =
       (polygonLineIntersections pg (pos l cats)).any fun s => decide (v ≥ s.1) && decide (v ≤ s.2) := by
@@ -62,7 +62,7 @@ theorem mask_catMulti_nan (pre : Option Affine) (sel : List (Int × List (Rat ×
   simp only [mask, hn]
   cases e.get ca <;> rfl
 
-theorem sel2d_get (r : Roi) (xs ys : List Int) (hs : strictSorted xs = true) (l : Int) (hl : l ∈ xs) :
+theorem sel2d_get (r : Roi) (xs ys : List Int) (hs : noDup xs = true) (l : Int) (hl : l ∈ xs) :
     dictGet (sel2d r xs ys) l =
       (let row := ys.zipIdx.filterMap fun yj =>
           if sel2d.roiContainsImpl r ⟨pos l xs, ((yj.2 : Nat) : Int)⟩ then some yj.1 else none
@@ -82,13 +82,13 @@ theorem sel2d_get (r : Roi) (xs ys : List Int) (hs : strictSorted xs = true) (l 
   split <;> simp_all
 
 /-- Membership in a row of the 2-d table. -/
-theorem mem_row (f : Nat → Bool) (ys : List Int) (hs : strictSorted ys = true) (l : Int) (hl : l ∈ ys) (n : Nat) :
+theorem mem_row (f : Nat → Bool) (ys : List Int) (hs : noDup ys = true) (l : Int) (hl : l ∈ ys) (n : Nat) :
     ((ys.zipIdx n).filterMap fun yj => if f yj.2 then some yj.1 else none).contains l =
       f (n + indexOf l ys) := by
   induction ys generalizing n with
   | nil => simp at hl
   | cons c cs ih =>
-    rw [strictSorted_cons] at hs
+    rw [noDup_cons] at hs
     simp only [List.zipIdx_cons, List.filterMap_cons]
     by_cases hlc : l = c
     · subst hlc
@@ -107,8 +107,7 @@ theorem mem_row (f : Nat → Bool) (ys : List Int) (hs : strictSorted ys = true)
           have := List.mem_zipIdx hyj
           obtain ⟨_, _, h3⟩ := this
           have hmem : yj.1 ∈ cs := by rw [h3]; exact List.getElem_mem _
-          have := hs.1 _ hmem
-          omega
+          exact hs.1 (hv ▸ hmem)
         · simp at hv
     · have hl' : l ∈ cs := by
         rcases List.mem_cons.mp hl with e | h
@@ -127,7 +126,7 @@ theorem mem_row (f : Nat → Bool) (ys : List Int) (hs : strictSorted ys = true)
         rw [this, Bool.false_or]
 
 theorem mask_cat2d (pre : Option Affine) (r : Roi) (xs ys : List Int)
-    (hsx : strictSorted xs = true) (hsy : strictSorted ys = true) (l1 l2 : Int)
+    (hsx : noDup xs = true) (hsy : noDup ys = true) (l1 l2 : Int)
     (h1 : l1 ∈ xs) (h2 : l2 ∈ ys) :
     mask pre (.cat2d (sel2d r xs ys)) ⟨.lab l1, .lab l2⟩ =
       sel2d.roiContainsImpl r ⟨pos l1 xs, pos l2 ys⟩ := by
